@@ -1,4 +1,5 @@
 mod f_hijri;
+mod f_policy;
 mod f_range;
 mod falsify;
 mod gen;
